@@ -25,6 +25,8 @@ def replay_file(path):
     mod = importlib.import_module('vf.props.%s' % doc['property'].lower())
     found = mod.replay(doc['case'])
     same = [v for v in found if v['sig'] == doc.get('sig')] or found
+    if isinstance(doc['case'], dict) and not isinstance(doc['case'].get('shard'), dict) and isinstance(doc['case'].get('_shard'), dict):
+        doc['case']['shard'] = doc['case']['_shard']
     if not same and isinstance(doc['case'], dict) and isinstance(doc['case'].get('shard'), dict):
         # history-dependent case: replay the whole shard it belongs to, from its start
         same = [v for v in mod.run_shard(doc['case']['shard']).get('violations', []) if v['sig'] == doc.get('sig')]
